@@ -410,6 +410,13 @@ def make_file_pair(rng, fmt, workdir, n=None, pos_cls=None):
     for k in range(1, n):
         if ref["t"][k] <= ref["t"][k - 1]:
             ref["t"][k] = ref["t"][k - 1] + 1e-3
+    if fmt == "tum" and rng.random() < .07:
+        # stamps in integer nanoseconds since the epoch (the files carry no time unit: all time
+        # options of the command are in the unit of the files)
+        ref["t"] = np.round((ref["t"] - ref["t"][0]) * 1e9) + 1.4e18
+        for k in range(1, n):
+            if ref["t"][k] <= ref["t"][k - 1]:
+                ref["t"][k] = ref["t"][k - 1] + 1024.0
     ext = float(np.max(np.abs(ref["p"] - ref["p"].mean(axis=0)))) + 1e-3
     # estimate: sub/over-sampled in time, jittered stamps, noisy poses, then a similarity
     dt = float(np.median(np.diff(ref["t"]))) if n > 1 else 0.1
@@ -426,7 +433,7 @@ def make_file_pair(rng, fmt, workdir, n=None, pos_cls=None):
         t_est = np.sort(t_est)
         for k in range(1, len(t_est)):
             if t_est[k] <= t_est[k - 1]:
-                t_est[k] = t_est[k - 1] + 1e-4
+                t_est[k] = t_est[k - 1] + max(1e-4, 4 * float(np.spacing(t_est[k - 1])))
     noise = (0.0 if rng.random() < .1 else 10.0**rng.uniform(-4, -0.5)) * ext
     p = ref["p"][idx] + rng.normal(size=(len(idx), 3)) * noise
     R = np.array([ref["R"][i] @ rm.rodrigues(gen.rand_axis(rng), rng.uniform(0, 0.5)) for i in idx])
@@ -562,6 +569,15 @@ def draw_common_options(rng, fp, force=()):
         o["t_max_diff"] = float(fp["dt"] * 10.0**rng.uniform(-1.5, 0.5)) if rng.random() < .8 else 0.01
         if rng.random() < .07:
             o["t_max_diff"] = 0.0  # legal: only identical stamps are associated
+        elif (rng.random() < .12 or "tmax_boundary" in force) and float(np.max(np.abs(fp["t_ref"]))) < 1e5 and len(fp["t_est"]):
+            # a bound a hair above / below the time difference of one pose pair (more decimals than
+            # nanoseconds): the pair is in or out exactly as the given number says
+            te = np.asarray(fp["t_est"], dtype=float) + fp["offset"]
+            i = int(rng.integers(len(te)))
+            dmin = float(np.min(np.abs(np.asarray(fp["t_ref"], dtype=float) - te[i])))
+            cand = dmin + (1 if rng.random() < .5 else -1) * 10.0**rng.uniform(-12, -9.5)
+            if cand > 0:
+                o["t_max_diff"] = cand
         argv += ["--t_max_diff", ["0", "0.0"][rng.integers(2)] if o["t_max_diff"] == 0 else repr(o["t_max_diff"])]
         if fp["offset"] != 0.0 and rng.random() < .9:
             o["t_offset"] = fp["offset"]
